@@ -446,7 +446,7 @@ def main(chk):
     masks = tuple(name for name, key, _o, _s, _w in PROBES if chk.is_known(key))
     if os.environ.get('VERIF_C13_UNMASK'):      # debugging / validating a proposed fix: exercise the masked sub-spaces too
         masks = ()
-    maxlen, nrand = (4, 2000) if quick else (5, 50000)
+    maxlen, nrand = (4, 2000) if quick else (5, 400000)
 
     tasks = []
     exh = []
